@@ -240,6 +240,15 @@ func runEntries(text string, which entrySet, visit func(call)) (schemaConsumed i
 				if err != nil {
 					return "", err
 				}
+				// descriptions set by the caller: any text, with blanks and line breaks anywhere
+				for _, d := range []string{"", " ", "\nText block", "  indented", "\tx", "a\n\nb  c\t", "é \u00a0 😀", "\r\n", strings.Repeat(" x", 300), "\"q\" \\ /"} {
+					so := openapi.NewSchemaObject(s)
+					so.SetDescription(d)
+					db, derr := so.MarshalJSON()
+					if derr == nil && !stdjson.Valid(db) {
+						return "", fmt.Errorf("with the description %q the Schema Object is not JSON: %s", d, db)
+					}
+				}
 				for _, inf := range openapi.Dereference(s) {
 					if oi, ok := inf.(openapi.ObjectInformer); ok {
 						for _, pi := range oi.PropertiesInfos() {
